@@ -168,6 +168,11 @@ def run_case(ctx, i, rng):
             for sid, it in (((r.get('monitors') or {}).get('end') or {}).get(
                     'succeeded_iters') or []):
                 if sid == tid and (k > 0 or it > at):
+                    if k == 0 and midstop and it > at + 1:
+                        # it succeeded while the scheduler was already
+                        # shutting down on the later `stop --now`
+                        ctx.count('stop_task_succeeded_during_shutdown')
+                        continue
                     after_req = True
         if succeeded and not after_req:
             ctx.count('stop_task_had_already_succeeded')
